@@ -115,15 +115,37 @@ func newPlan(w *world, thorough bool) *plan {
 
 // ---- enumeration ------------------------------------------------------------------------------
 
+// What a tier enumerates (see the claim): per identity, which values of a slot
+// are used alone, and which pairs of slots are combined.
+//
+//	quick     administrator: the core values of every slot; non-admin with all
+//	          permissions: one value per slot; plain user: the well-formed request.
+//	          The well-formed request also with every logger active. The second
+//	          (warm-cache) request only for GET/HEAD routes and well-formed requests.
+//	thorough  administrator: core values of every slot plus every value of the
+//	          path-variable, parameter, query, path and whole-body slots; non-admin:
+//	          core values; plain user: one value per slot. Pairs (administrator):
+//	          every two of the path-variable/parameter/body/body-field slots, and each
+//	          of those with method, Authorization, Content-Type and Accept (first core
+//	          value of each). Always both requests (cold, warm).
+//	full      (C40_DEPTH=full, thorough tier) every value of every slot for every
+//	          identity, core values also with every logger, pairs over all slots.
+//
+// Costly well-formed requests (lean: an Argon2id or bcrypt run or a /proc walk
+// per accepted request) use one value per slot in quick and core values above.
 func (p *plan) generate(yield func(kase)) {
 	seq := 0
 
-	emit := func(v *variant, id identity, loggers string, b *build, devs []dev) {
+	emit := func(v *variant, id identity, loggers string, b *build, devs []dev, passes int) {
 		seq++
-		yield(kase{Seq: seq, Route: v.route, Ident: id.Name, Loggers: loggers, Devs: devs, Req: b.render()})
+		yield(kase{Seq: seq, Route: v.route, Ident: id.Name, Loggers: loggers, Devs: devs, Passes: passes, Req: b.render()})
 	}
 
 	only := os.Getenv("C40_ONLY")
+	full := p.thorough && os.Getenv("C40_DEPTH") == "full"
+	deep := map[string]bool{"pathvar": true, "param": true, "body": true, "field": true}
+	wide := map[string]bool{"pathvar": true, "param": true, "body": true, "path": true, "query": true}
+	partner := map[string]bool{"method": true, "header:Authorization": true, "header:Content-Type": true, "header:Accept": true}
 
 	for vi := range p.variants {
 		v := &p.variants[vi]
@@ -145,8 +167,18 @@ func (p *plan) generate(yield func(kase)) {
 		for ii, id := range p.idents {
 			base := v.mk(id)
 			slots := p.slotsOf(v, base, id)
+			admin, plain := ii == 0, ii == len(p.idents)-1
+			reads := base.method == "GET" || base.method == "HEAD"
 
-			if ii == 0 {
+			passes := func(isBase bool) int {
+				if p.thorough || isBase || reads {
+					return 2
+				}
+
+				return 1
+			}
+
+			if admin {
 				n := 0
 				for _, s := range slots {
 					n += len(s.opts)
@@ -155,19 +187,32 @@ func (p *plan) generate(yield func(kase)) {
 				p.slotCount[v.route+" ["+v.name+"]"] = n
 			}
 
-			varDev := []dev{}
-			if v.name != "" {
-				// which well-formed request of the route this is (not a deviation; kept in the witness)
-				varDev = nil
-			}
-
 			// the well-formed request, with the usual loggers and with all of them
-			emit(v, id, "server", base, varDev)
-			emit(v, id, "all", base, varDev)
+			emit(v, id, "server", base, nil, 2)
+			emit(v, id, "all", base, nil, 2)
 			p.counts["well-formed"] += 2
 
-			// one deviation
-			deep := map[string]bool{"pathvar": true, "path": true, "param": true, "query": true, "body": true, "field": true}
+			// level of this identity: 0 nothing, 1 one value per slot, 2 core values, 3 core + every value of the wide slots, 4 everything
+			level := 0
+
+			switch {
+			case full:
+				level = 4
+			case p.thorough && admin:
+				level = 3
+			case p.thorough && !plain, !p.thorough && admin:
+				level = 2
+			case p.thorough && plain, !p.thorough && !plain:
+				level = 1
+			}
+
+			if v.lean && level > 0 {
+				if p.thorough {
+					level = 2
+				} else {
+					level = 1
+				}
+			}
 
 			for si := range slots {
 				s := &slots[si]
@@ -181,33 +226,41 @@ func (p *plan) generate(yield func(kase)) {
 						firstCore = false
 					}
 
-					if o.onlyFirstIdent && ii > 0 {
+					if o.onlyFirstIdent && !admin {
 						continue
 					}
 
-					// quick tier and costly variants: the core values of each slot; the plain user: one value per slot
-					if !o.core && (!p.thorough || v.lean) {
-						continue
+					use := false
+
+					switch level {
+					case 1:
+						use = rep
+					case 2:
+						use = o.core
+					case 3:
+						use = o.core || wide[s.class]
+					case 4:
+						use = true
 					}
 
-					if !p.thorough && ii == len(p.idents)-1 && !rep {
+					if !use {
 						continue
 					}
 
 					b := base.clone()
 					o.apply(b)
 					d := []dev{{Slot: s.name, Kind: o.kind, Label: o.label}}
-					emit(v, id, "server", b, d)
+					emit(v, id, "server", b, d, passes(false))
 					p.counts["one-deviation"]++
 
-					if o.core && (p.thorough || (deep[s.class] && ii < len(p.idents)-1)) {
-						emit(v, id, "all", b, d)
+					if (full && o.core) || (p.thorough && admin && rep && deep[s.class]) {
+						emit(v, id, "all", b, d, 2)
 						p.counts["one-deviation-all-loggers"]++
 					}
 				}
 			}
 
-			if p.maxDevs < 2 || v.lean {
+			if p.maxDevs < 2 || v.lean || (!admin && !full) {
 				continue
 			}
 
@@ -229,19 +282,26 @@ func (p *plan) generate(yield func(kase)) {
 						continue
 					}
 
+					if !full {
+						da, dc := deep[a.class], deep[c.class]
+						if !(da && dc) && !(da && partner[c.name]) && !(dc && partner[a.name]) {
+							continue
+						}
+					}
+
 					oa, oc := first(a), first(c)
 					if oa == nil || oc == nil {
 						continue
 					}
 
-					if oa.onlyFirstIdent && oc.onlyFirstIdent && ii > 0 {
+					if oa.onlyFirstIdent && oc.onlyFirstIdent && !admin {
 						continue
 					}
 
 					b := base.clone()
 					oa.apply(b)
 					oc.apply(b)
-					emit(v, id, "server", b, []dev{{Slot: a.name, Kind: oa.kind, Label: oa.label}, {Slot: c.name, Kind: oc.kind, Label: oc.label}})
+					emit(v, id, "server", b, []dev{{Slot: a.name, Kind: oa.kind, Label: oa.label}, {Slot: c.name, Kind: oc.kind, Label: oc.label}}, 2)
 					p.counts["two-deviations"]++
 				}
 			}
